@@ -17,8 +17,9 @@ TECHNIQUE = ("Lean 4 theorems over an executable transcription of share_placemen
              "modelled as a state machine (plan = share_placement of the current state) and driven through operation "
              "histories (add_peer / add_peer_with_share / mark_readonly_peer / mark_bad_peer / get_share_placements), every "
              "returned plan compared with the model and checked against the state; one real Tahoe2ServerSelector run per seed on "
-             "the in-process grid with a server failing allocate_buckets; monitor = the three clauses of the statement with a "
-             "brute-force / matching optimum")
+             "the in-process grid with a server failing allocate_buckets; re-uploads on the grid after servers turned read-only "
+             "(the selector state at the first plan vs the shares on disk and vs the Lean toldState); monitor = the three "
+             "clauses of the statement with a brute-force / matching optimum")
 LEVEL_TEXT = ("over the model of the repaired code (now the repository's code): placement_total, placement_returns, "
               "readonly_only_existing and spread_maximal (no placement respecting the read-only clause uses more distinct servers; "
               "three-phase composition proved via the C08 maximum-matching theory) proved in Lean for all inputs; PeerSelector as a "
@@ -53,6 +54,8 @@ SIG_TOTAL = "share-unassigned-or-unknown-server"
 SIG_SPREAD_DROPPED = "spread-below-optimum-writable-peer-dropped"
 SIG_SPREAD_OTHER = "spread-below-optimum-other"
 SIG_UNHAPPY = "selection-unhappy-although-achievable"
+SIG_RELATION = "existing-share-relation-wrong:"      # + readonly | writable
+SIG_CLASSIFICATION = "server-classification-wrong"
 
 
 # ----------------------------------------------------------------------------- encodings
@@ -729,12 +732,137 @@ def run_grid(ctx, seeds=None):
                 g.close()
 
 
+# ----------------------------------------------------------------------------- re-upload on the grid: the planner's input
+
+REUPLOAD_CORPUS = [
+    # seeded C07-d: one server of four turns read-only after the first upload and keeps its share; the re-upload needs
+    # that share to reach happiness 4 (the other shares deleted / kept; three delivery policies)
+    {"servers": 4, "k": 2, "happy": 4, "n": 4, "readonly": [1], "delete_others": True, "seed": 2, "policy": "random"},
+    {"servers": 4, "k": 2, "happy": 4, "n": 4, "readonly": [2], "delete_others": False, "seed": 8, "policy": "lifo"},
+    {"servers": 5, "k": 2, "happy": 4, "n": 4, "readonly": [0, 3], "delete_others": True, "seed": 7, "policy": "fifo"},
+]
+REUPLOAD_DATA = b"C07 share placement, planner input " * 40
+
+
+def run_reupload(ctx, cases):
+    """upload a file, turn servers read-only, upload the same file again through the real uploader; at the first
+    get_share_placements() of the second upload compare what the selector was told (server classes, existing-share relation)
+    with the ground truth on disk, check the plan against the TRUE relation, and the outcome against the reachable happiness"""
+    import grid
+    from allmydata import uri
+    from allmydata.immutable import upload
+    from allmydata.interfaces import UploadUnhappinessError
+    from allmydata.storage.server import FoolscapStorageServer
+    descr, impl, lines = [], [], []
+    for case in cases:
+        nsrv, n, happy = case["servers"], case["n"], case["happy"]
+        rec = {}
+        orig = upload.PeerSelector.get_share_placements
+
+        def recording(self, rec=rec, orig=orig):
+            plan = orig(self)
+            if "plan" not in rec:
+                rec["plan"] = dict(plan)
+                rec["peers"] = set(self.peers); rec["readonly"] = set(self.readonly_peers); rec["bad"] = set(self.bad_peers)
+                rec["existing"] = {k: set(v) for k, v in self.existing_shares.items()}
+            return plan
+        with grid.Runtime(seed=case["seed"], policy=case["policy"]) as rt:
+            g = grid.Grid(grid.fresh_dir("c07r"), rt, num_servers=nsrv, num_clients=1, k=case["k"], happy=happy, n=n,
+                          max_segment_size=128)
+            try:
+                c = g.clients[0]
+                conv = b"c" * 16
+                res = rt.wait(c.upload(upload.Data(REUPLOAD_DATA, convergence=conv)))
+                si = uri.from_string(res.get_uri()).get_storage_index()
+                for i in case["readonly"]:
+                    ss = g.storage[i]
+                    ss.readonly_storage = True
+                    g.wrappers[i].version = FoolscapStorageServer(ss).remote_get_version()
+                if case["delete_others"]:
+                    for (i, shnum, path) in g.share_files(si):
+                        if i not in case["readonly"]:
+                            os.remove(path)
+                num = {g.serverid(i): i for i in range(nsrv)}
+                held = {i: set() for i in range(nsrv)}
+                for (i, shnum, path) in g.share_files(si):
+                    held[i].add(shnum)
+                R = set(case["readonly"]); W = set(range(nsrv)) - R
+                S = list(range(n))
+                truth = {i: sh for i, sh in held.items() if sh}
+                upload.PeerSelector.get_share_placements = recording
+                try:
+                    outcome = "ok"
+                    try:
+                        rt.wait(c.upload(upload.Data(REUPLOAD_DATA, convergence=conv)))
+                    except UploadUnhappinessError as e:
+                        outcome = "unhappy: " + str(e)[:160]
+                finally:
+                    upload.PeerSelector.get_share_placements = orig
+            finally:
+                g.close()
+        rcase = {"grid_reupload": case, "on_disk": {str(i): sorted(v) for i, v in truth.items()}}
+        ctx.case(("grid-reupload", repr(sorted(case.items()))))
+        ctx.count("grid-reupload:" + case["policy"])
+        if "plan" not in rec:
+            ctx.violation("the second upload never asked for a plan (%s)" % outcome, rcase, "no-plan-requested")
+            continue
+        to_num = lambda sid: num.get(sid, -1)
+        got_ex = {to_num(k): set(v) for k, v in rec["existing"].items() if v}
+        plan = {sh: to_num(p) for sh, p in rec["plan"].items()}
+        rcase["told"] = {"peers": sorted(to_num(p) for p in rec["peers"]), "readonly": sorted(to_num(p) for p in rec["readonly"]),
+                         "existing": {str(k): sorted(v) for k, v in got_ex.items()}}
+        rcase["plan"] = sorted(plan.items())
+        # 1. the planner's input against the ground truth (the spec: every answer is booked under the answering server)
+        if set(to_num(p) for p in rec["peers"]) != W or set(to_num(p) for p in rec["readonly"]) != R:
+            ctx.violation("the selector's writable / read-only server sets differ from the servers' actual state", rcase,
+                          SIG_CLASSIFICATION)
+        for cls, members in (("readonly", R), ("writable", W)):
+            wrong = [i for i in sorted(members) if got_ex.get(i, set()) != truth.get(i, set())]
+            extra = [k for k in got_ex if k not in W and k not in R]
+            if wrong or (cls == "writable" and extra):
+                ctx.violation("existing shares recorded for %s server(s) %s differ from the shares on disk "
+                              "(recorded %s, on disk %s)" % (cls, wrong + extra, {k: sorted(got_ex.get(k, ())) for k in wrong + extra},
+                                                             {k: sorted(truth.get(k, ())) for k in wrong}), rcase, SIG_RELATION + cls)
+                ctx.count("clause-fails:" + SIG_RELATION + cls)
+        # 2. the plan against the TRUE relation
+        for sig, text in clauses(W, R, S, truth, plan):
+            ctx.violation(text + " (first plan of the re-upload, judged on the shares actually on disk)", rcase, sig)
+            ctx.count("clause-fails:" + sig)
+        # 3. the verdict
+        opt = optimum_spread(W, R, S, truth)
+        if opt >= happy and outcome != "ok":
+            ctx.violation("upload declared unhappy although %d >= %d distinct servers were reachable: %s" % (opt, happy, outcome),
+                          rcase, SIG_UNHAPPY)
+            ctx.count("grid-reupload:unhappy-although-achievable")
+        # 4. the selector state the model reaches from the ground truth (spec history) vs the state the real selector was in
+        lines.append("told %d %d %s %s" % (n, nsrv, enc_ids(sorted(R)), enc_setmap([(i, sorted(truth[i])) for i in sorted(truth)])))
+        impl.append(enc_sel_state([to_num(p) for p in rec["peers"]], [to_num(p) for p in rec["readonly"]],
+                                  [to_num(p) for p in rec["bad"]], sorted(got_ex.items())))
+        descr.append(rcase)
+    model = ctx.model(lines)
+    ctx.compare("selector state at the first plan of a re-upload vs the state the ground truth prescribes (Lean toldState: "
+                "every server added, read-only ones demoted, every share on disk booked under its server)", descr, impl, model)
+
+
+def random_reupload_cases(ctx):
+    rng = ctx.subrng("reupload")
+    out = []
+    for _ in range(ctx.budget(12, 300)):
+        nsrv = rng.choice([4, 4, 5, 6])
+        nro = rng.choice([1, 1, 2])
+        out.append({"servers": nsrv, "k": 2, "happy": rng.choice([3, 4]), "n": 4, "readonly": sorted(rng.sample(range(nsrv), nro)),
+                    "delete_others": rng.random() < 0.5, "seed": rng.randrange(1 << 20),
+                    "policy": rng.choice(["random", "random", "fifo", "lifo"])})
+    return out
+
+
 def run(ctx):
     if not ctx.replay:
         # the fixed corpus first (no random generation before it)
         run_direct(ctx, part="corpus")
         run_selector(ctx, part="corpus")
         run_grid(ctx, [GRID_CORPUS_SEED])
+        run_reupload(ctx, REUPLOAD_CORPUS)
         if corpus_only():
             ctx.note("VERIF_CORPUS_ONLY=1: only the fixed corpus was run (%d layouts, %d selector histories, 1 grid selection)"
                      % (len(CORPUS), len(SELECTOR_CORPUS)))
@@ -742,12 +870,16 @@ def run(ctx):
         run_direct(ctx, part="rest")
         run_selector(ctx, part="rest")
         run_grid(ctx)
+        run_reupload(ctx, random_reupload_cases(ctx))
         return
     if ctx.replay:
         c = ctx.replay.get("case") or {}
         if "selector_history" in c:
             h = c["selector_history"]
             run_selector(ctx, [(h["total"], [tuple(o) for o in h["ops"]], h.get("ids", "int"), h.get("idseed"))])
+            return
+        if "grid_reupload" in c:
+            run_reupload(ctx, [c["grid_reupload"]])
             return
         if "grid_selection" in c:
             run_grid(ctx, [c["grid_selection"]["seed"]])
